@@ -501,7 +501,14 @@ def objectUnknown (env : Env) (shape : List Field) (mode : Mode) (catchall : Opt
     if isKnown shape k then (is, un, n)
     else match mode with
       | .strict => (is, keyId k :: un, n)
-      | .strip => (is, un, n)
+      | .strip =>
+        -- /repo 507cd5d: a catch-all validates the unknown keys in strip mode too; the key is still omitted from the result
+        match catchall with
+        | none => (is, un, n)
+        | some c =>
+          match env c v with
+          | .ok _ => (is, un, n)
+          | .err i t => ((i :: t).map (prepend k.seg) ++ is, un, n)
       | .passthrough =>
         match catchall with
         | none => (is, un, n + 1)
